@@ -303,4 +303,23 @@ PROPS = {
         "assumptions": COMMON_ASSUMPTIONS + ["'never fails to terminate' is restated as bounded progress (10 s + 1 ms per input byte); 'bounded stack' as no overflow on a 2 MiB thread (optimised) / 8 MiB (unoptimised)"],
         "technique": "runtime monitoring: total-function oracle (no panic / process survives / time budget / error well-formedness via hooked span and Display) over token soup, mutated filters, exhaustive truncations and isolated pathological inputs",
     },
+    "C14": {
+        "rule": ("round-trip: random contexts over the four rich schemes and four degenerate ones (lists but no fields; "
+                 "only optional fields; no lists; empty) with nested values to depth 3, non-UTF-8 bytes and map keys, "
+                 "i64 extremes, v4/v6 addresses and harness list-matcher state: serialise, compare with the documented "
+                 "JSON form, deserialise into a fresh context through from_str / from_slice / from_reader / a "
+                 "serde_json::Value tree; contexts must compare equal, read back equal with the deep type invariant, and "
+                 "4 generated filters must evaluate identically (and as the reference says); mutants: the document with "
+                 "one node replaced (null/bool/int/string/[]/{}/256/-1/2^63/1.5/wrapped/unwrapped/re-encoded), an "
+                 "unknown or renamed key, text truncation, a bad `$lists` entry (unregistered, unknown, 33-72 layer "
+                 "type, missing/extra keys, bad members) or valid alternative encodings, decided by a type-directed JSON "
+                 "acceptance model: accepted documents must load and equal the model's decoding, rejected ones must give "
+                 "an error; never a panic, never a stored value of another type; ffi: the C entry points on the same "
+                 "documents. distinct_nontrivial = distinct contexts / documents."),
+        "quick": [st("rel")],
+        "thorough": [st("rel"), st("dbg"), st("asan")],
+        "floors": {"quick": {"evaluations": 30000, "distinct_nontrivial": 8000, "round_trips_ok": 5000,
+                             "mutants_accepted": 3000, "mutants_rejected": 10000, "ffi_ok": 500}},
+        "assumptions": COMMON_ASSUMPTIONS + ["the JSON acceptance model in props/c14.rs is the documented encoding (strings or byte arrays for Bytes, objects or pair arrays for maps)"],
+    },
 }
